@@ -118,7 +118,7 @@ mod verif_kani {
             (LuaValue::String(_), other) => assert!(unknown(other), "string length is a number or Unknown"),
             (_, other) => assert!(unknown(other), "length of a non-string is Unknown"),
         }
-        kani::cover!(matches!(r, LuaValue::Number(_)));
+        kani::cover!(matches!(v, LuaValue::String(_)));
         core::mem::forget(v);
     }
 
